@@ -353,7 +353,7 @@ pub fn run(ctx: &Ctx) -> PropResult {
         let text = mutate(rng, &base);
         judge_malformed(rec, kind, &text);
     }));
-    wls.push(Workload::cases("offset_local_under_a_changing_zone", ctx.count(3_000, 100_000), |rec, _, rng| super::localzone::zone_switch_case(rec, rng, "C20")));
+    wls.push(Workload::cases("offset_local_under_a_changing_zone", ctx.count(3_000, 30_000), |rec, _, rng| super::localzone::zone_switch_case(rec, rng, "C20")));
     let out = run_workloads(ctx, wls);
     let mut meta = PropMeta::default();
     meta.rule = format!(
